@@ -189,7 +189,7 @@ let run_xls = function
     let glen = List.length (xls_stream c0 wb) - List.length c0.lc_tail in
     let c = mk (n_of_int glen) in
     let st = bytes_of_hex (hex_of_bytes (xls_stream c wb)) in
-    String.concat "|" [ hex_of_bytes st; show_outcome (xls_parse_workbook st);
+    String.concat "|" [ hex_of_bytes st; show_outcome (xls_parse_workbook show_f64 st);
                         show_parsed wb.wb_sheets (spec_names_xls c wb) wb.wb_1904;
                         "-"; b01 (xls_legal c wb) ]
   | _ -> "bad-args"
@@ -230,7 +230,7 @@ let run (args : string list) : string =
   | "xlsb" :: r -> run_xlsb r
   | "xlsbr" :: [rw; h] -> show_outcome (xlsb_open show_f64 (unwire rw) (bytes_of_hex h))
   | "xls" :: r -> run_xls r
-  | "xlsr" :: [h] -> show_outcome (xls_parse_workbook (bytes_of_hex h))
+  | "xlsr" :: [h] -> show_outcome (xls_parse_workbook show_f64 (bytes_of_hex h))
   | "ods" :: r -> run_ods r
   | "odsr" :: [w] -> show_outcome (ods_parse_content (unwire w))
   | _ -> "bad-args"
